@@ -169,6 +169,8 @@ func checkC15(c *Ctx, r *Report, tier string) {
 	distancesNonNegative(c, r, "C15.R6")
 	r.Rule("C15.R7", "each Space implementation dispatches to the kernels of one instruction set only", 2)
 	implUsesOneInstructionSet(c, r, "C15.R7")
+	r.Rule("C15.R8", "the kernels are only ever given equal-length vectors: every RPC path to a vector operation passes the dimension guard (borrowed from C12.R1)", 3)
+	borrow(c, r, "C12", "C12.R1", "C15.R8", "")
 	r.Rule("C15.R4", "wrapper contract (Go SSA): the length argument is len of the first slice parameter, the data arguments are &p0[0] and &p1[0] in that order, result arguments are addresses of fresh locals; the dispatch wrappers pass (a, b) through unchanged", 12)
 	// ---- R4 first (pure SSA) ----
 	kernels := map[string][]string{} // pkg rel -> stub names
